@@ -47,7 +47,11 @@ impl<T: FromJSON + New> JSONArrayOfObjects<T> {
         let mut list: Vec<T> = vec![];
         for item in items {
             let mut object = T::new();
-            object.parse(item).unwrap();
+            let boxed_parse = object.parse(item);
+            if boxed_parse.is_err() {
+                let message = boxed_parse.err().unwrap();
+                return Err(message);
+            }
             list.push(object);
         }
         Ok(list)
